@@ -1,5 +1,6 @@
 """Load the current /repo/phylib sources, unmodified, into a private module graph whose
 environment (numpy, pathlib, math, builtins, third-party packages) is substituted."""
+import ast
 import builtins as _b
 import os
 import sys
@@ -13,10 +14,17 @@ REPO = os.environ.get('PHYLIB_REPO', '/repo')
 class SymPackage(object):
     """One private instance of the phylib package executed over a substituted environment."""
 
-    def __init__(self, env_modules, extra_builtins=None, repo=None, record=None):
+    def __init__(self, env_modules, extra_builtins=None, repo=None, record=None, literal_overrides=None):
         """env_modules: dict name -> module object replacing an import (e.g. 'numpy').
-        Names not listed are imported for real."""
+        Names not listed are imported for real.
+        literal_overrides: {(module, function, variable): value} -- the only source transformation the
+        loader knows: inside `function` of `module`, an assignment `variable = <numeric literal>` is
+        re-bound to `value` (a scaled-down size constant, e.g. a batch size).  The literal found in the
+        current source is kept in self.literals (None when the source has no such assignment, in which
+        case nothing is rewritten).  Every use is a stated assumption of the check that asks for it."""
         self.repo = repo or REPO
+        self.literal_overrides = dict(literal_overrides or {})
+        self.literals = {}
         self.env = dict(env_modules)
         self.modules = {}
         self.record = record if record is not None else set()
@@ -53,13 +61,32 @@ class SymPackage(object):
             mod.__path__ = [os.path.dirname(path)]
         mod.__dict__['__builtins__'] = self.builtins
         self.modules[name] = mod
-        code = compile(src, path, 'exec')
+        code = compile(self._scaled(name, src, path), path, 'exec')
         exec(code, mod.__dict__)
         if '.' in name:
             parent, child = name.rsplit('.', 1)
             setattr(self.modules[parent], child, mod)
         self.record.add(os.path.relpath(path, self.repo))
         return mod
+
+    def _scaled(self, name, src, path):
+        todo = {k: v for k, v in self.literal_overrides.items() if k[0] == name}
+        if not todo:
+            return src
+        tree = ast.parse(src, path)
+        for (_, func, var), value in todo.items():
+            self.literals[(name, func, var)] = None
+            for node in ast.walk(tree):
+                if isinstance(node, (ast.FunctionDef, ast.AsyncFunctionDef)) and node.name == func:
+                    for sub in ast.walk(node):
+                        if (isinstance(sub, ast.Assign) and len(sub.targets) == 1
+                                and isinstance(sub.targets[0], ast.Name) and sub.targets[0].id == var
+                                and isinstance(sub.value, ast.Constant)
+                                and isinstance(sub.value.value, (int, float))
+                                and not isinstance(sub.value.value, bool)):
+                            self.literals[(name, func, var)] = sub.value.value
+                            sub.value = ast.copy_location(ast.Constant(value), sub.value)
+        return tree
 
     def _import(self, name, globals=None, locals=None, fromlist=(), level=0):
         if level > 0:
